@@ -5,8 +5,10 @@
    opts   ::= [file, dir, follow, hidden]
    roots  ::= [[root, [entry...]] ...]
    gent   ::= [kind, name, id]             kind 0 GFile, 1 GDir, 2 GSymFile, 3 GSymDir (id = directory number)
-   gworld ::= [[id, [gent...]] ...] *)
-From Fzf Require Import Prelude Val WalkSpec WalkModel WalkLinkSpec.
+   gworld ::= [[id, [gent...]] ...]
+   uentry ::= [kind, name, [uentry...], rd]   kinds as entry; rd = 0: the directory (the link's target) cannot be read
+   uroots ::= [[root, [uentry...], rd] ...]   rd = 0: the root directory itself cannot be read *)
+From Fzf Require Import Prelude Val WalkSpec WalkModel WalkLinkSpec WalkErrSpec WalkErrModel.
 Open Scope Z_scope.
 
 Fixpoint as_entry (v : val) : entry :=
@@ -72,6 +74,35 @@ Definition d_unfold (a : val) : val :=
   | None => verr
   end.
 
+(* trees with unreadable directories (spec/WalkErrSpec.v, model/WalkErrModel.v) *)
+Fixpoint as_uentry (v : val) : uentry :=
+  match v with
+  | VL (VI k :: nm :: VL ch :: rd :: _) =>
+      if k =? 1 then UDir (as_str nm) (as_bool rd) (map as_uentry ch)
+      else if k =? 3 then USymDir (as_str nm) (as_bool rd) (map as_uentry ch)
+      else if k =? 2 then USymFile (as_str nm)
+      else UFile (as_str nm)
+  | VL (VI k :: nm :: _) => if k =? 2 then USymFile (as_str nm) else UFile (as_str nm)
+  | _ => UFile []
+  end.
+Definition as_uroot (v : val) : uroot :=
+  (as_str (arg v 0), as_bool (arg v 2), map as_uentry (as_list (arg v 1))).
+Definition as_uroots (v : val) : list uroot := map as_uroot (as_list v).
+
+(* 1907 model with unreadable directories: [opts, ignores, uroots] -> [1, [pushed...], noerr] | verr *)
+Definition d_model_e (a : val) : val :=
+  match read_files_e (as_opts (arg a 0)) (as_strs (arg a 1)) (as_uroots (arg a 2)) with
+  | Ok (l, noerr) => VL [VI 1; vstrs l; vbool noerr]
+  | Err _ => verr
+  end.
+
+(* 1908 spec with unreadable directories: [opts, ignores, uroots] -> [listed...] *)
+Definition d_spec_e (a : val) : val :=
+  vstrs (listing_unreadable (as_opts (arg a 0)) (as_strs (arg a 1)) (as_uroots (arg a 2))).
+
+(* 1909 the visible tree: [uentry...] -> [entry...] *)
+Definition d_visible (a : val) : val := VL (map (fun v => of_entry (visible (as_uentry v))) (as_list a)).
+
 Definition dispatch_walk (op : Z) (a : val) : option val :=
   if op =? 1901 then Some (d_model a)
   else if op =? 1902 then Some (d_spec a)
@@ -79,4 +110,7 @@ Definition dispatch_walk (op : Z) (a : val) : option val :=
   else if op =? 1904 then Some (d_fn a)
   else if op =? 1905 then Some (vstr (display (as_str a)))
   else if op =? 1906 then Some (d_unfold a)
+  else if op =? 1907 then Some (d_model_e a)
+  else if op =? 1908 then Some (d_spec_e a)
+  else if op =? 1909 then Some (d_visible a)
   else None.
